@@ -433,17 +433,26 @@ func (w *World) pureCall(x *CallE, env *Env, v *FnVC, cl *Clause) (Term, bool) {
 	if fn == nil {
 		return Term{}, false
 	}
-	name := "fn." + sanitize(key)
-	var ps, as []string
-	for i, p := range fn.Params {
-		ps = append(ps, w.sorts.sortOf(p.Type()))
+	name := w.pureFn(key, fn)
+	var as []string
+	for i := range fn.Params {
 		if i < len(x.Args) {
 			as = append(as, v.specTerm(x.Args[i], env, cl).S)
 		}
 	}
 	rt := fn.Signature.Results().At(0).Type()
-	w.declareOnce(name, fmt.Sprintf("(declare-fun %s (%s) %s)", name, strings.Join(ps, " "), w.sorts.sortOf(rt)))
 	return Term{fmt.Sprintf("(%s %s)", name, strings.Join(as, " ")), rt}, true
+}
+
+func (w *World) pureFn(key string, fn *ssa.Function) string {
+	name := "fn." + sanitize(key)
+	var ps []string
+	for _, p := range fn.Params {
+		ps = append(ps, w.sorts.sortOf(p.Type()))
+	}
+	rt := fn.Signature.Results().At(0).Type()
+	w.declareOnce(name, fmt.Sprintf("(declare-fun %s (%s) %s)", name, strings.Join(ps, " "), w.sorts.sortOf(rt)))
+	return name
 }
 
 // findFunction resolves a contract's function.
